@@ -12,6 +12,10 @@ def base(rnd, **kw):
     # half of the cases label the samples by a random permutation instead of 0..N-1 (positions != values)
     if c.get("mode") not in ("lmsel",) and rnd.random() < 0.5:
         c["plabel"] = 1
+    elif c.get("mode") not in ("lmsel",) and rnd.random() < 0.4:
+        # the library's own eigen_*_callback types over a matrix with more columns than are embedded (a shuffled subset of the
+        # columns is the training range); only takes effect for the linear kernel / Euclidean distance
+        c["ecb"] = 1
     return c
 
 
